@@ -75,7 +75,7 @@ SPEC = {
 #   * compose `searchx` (select / sort / offset / limit over a filter query Q): the plain filter request `search Q` is
 #     re-run on the same write history, implementation and model; if both agree the filter part is intact and the
 #     difference lies in select / sort / paging / back-fill (C06) or in the stored document (C01)
-#   * rank `fdump` / `tdump`: the flat bucket is C04's, the text postings are C05's
+#   * rank `fdump` / `tdump`: the flat bucket is C04's, the text postings are C05's (read through C19's term-key codec)
 #   * rank `searchr`: a tree without a ranking leaf is a pure filter request (stays here); otherwise every filter it
 #     contains (pre-filters and filter leaves) is re-run alone (`searchr <filter>`); if all agree the difference is in
 #     the ranking: C04 (flat leaf), C05 (text leaf), C06 (+ the leaves' indexes) for a composite tree
@@ -109,7 +109,7 @@ def _classify_stream(r, ctx, stream, mode, dis, ops):
         elif stream == "rank" and kind == "fdump":
             foreign.append(dict(d, owners=["C04"], why="the content of the flat vector bucket index/vectorFlat/v differs"))
         elif stream == "rank" and kind == "tdump":
-            foreign.append(dict(d, owners=["C05"], why="the postings / corpus size of the text bucket index/text/t differ"))
+            foreign.append(dict(d, owners=["C05", "C19"], why="the postings / corpus size of the text bucket index/text/t differ (C05), as read through the term-key codec of text.go (C19)"))
         elif stream == "compose" and kind == "searchx":
             q = blame.searchx_query(op)
             if q is None:
